@@ -60,6 +60,11 @@ def check_c10(tier, seed):
             if list(exp) != list(got[:3]) and bad is None:
                 cls = "panic" if got[2] == "panic" else "offset"
                 bad = ("C10 from_proto %s-differs text-has=%s" % (cls, features(b["text"])), {"position": exp[:2], "expected": exp[2], "got": got[2:]})
+        for rr in rec.get("ranges", []):
+            entries += 1
+            if bad is None:
+                bad = ("C10 %s_proto range-differs-from-its-end-positions text-has=%s" % ("to" if rr[2].startswith("to") else "from", features(b["text"])),
+                       {"offsets": rr[:2], "what": rr[2], "positions": rr[3] if len(rr) > 3 else None, "range": rr[4] if len(rr) > 4 else None})
         if bad:
             bad_texts += 1
             v.report(bad[0], dict(bad[1], text=b["text"]), {"text": b["text"], "to": b["to"], "from": b["from"]})
@@ -70,7 +75,8 @@ def check_c10(tier, seed):
            "explanation": "every text over the 9 character classes up to the bound: full offset->(line,col16) table for every char boundary and "
                           "(line,col)->offset table for every line and every column up to one past the line end (columns inside a surrogate "
                           "pair and offsets inside a CR LF pair carry no round-trip obligation); laws (round trip, monotone, clamping, "
-                          "only LF/CR/CRLF end lines) checked on the spec by TLC"}
+                          "only LF/CR/CRLF end lines) checked on the spec by TLC; to_proto::range / from_proto::range on every pair of offsets must "
+                          "agree with the two positions"}
     return v.finish("model_checking", cov, ["LSP's default UTF-16 position encoding"])
 
 
